@@ -600,6 +600,9 @@ retry:
 			}
 		}
 	case *types.Chan:
+		if t.Dir() == types.SendOnly {
+			return nil
+		}
 		return []types.Type{t.Elem(), nil}
 	case *types.Basic:
 		if (t.Info() & types.IsString) != 0 {
